@@ -19,7 +19,7 @@ simulated figures, invariance of probability.
 import ast
 import re
 
-from mmsa import au, cfg as cfgmod, dataflow, sym, tbrrules
+from mmsa import au, canon, cfg as cfgmod, dataflow, pathcond, sym, tbrrules
 from mmsa.core import Undecided, norm, walk_no_nested
 from mmsa.props import c08
 from mmsa.types import FuncCtx
@@ -39,7 +39,7 @@ def r1_fixed_cost(repo, rep, f, ctx):
     rep.undecided('R1/fixed-cost-algebra', 'TBRiROAS.summary', 'expected one call of tbr_response.summary', f.loc())
     return None
   n, c = calls[0]
-  kws = {k.arg: k.value for k in c.keywords}
+  kws = canon.of(repo).bound(c)
   for k, want in (('tails', 'tails'), ('level', 'level'), ('threshold', 'posterior_threshold')):
     rep.check(k in kws and norm(kws[k]) == want, 'R1/fixed-cost-algebra', 'response summary called with %s=%s' % (k, want), f.qualname,
               '%s=%s' % (k, norm(kws[k]) if k in kws else 'missing'), 'the response summary is requested with %s=%s instead of the caller\'s %s' % (k, norm(kws[k]) if k in kws else 'default', want), f.loc(c))
@@ -121,12 +121,15 @@ def r1b_variable_cost(repo, rep, f, ctx):
       'scenario': ["'variable'"],
   }
   n_ok = 0
+  cn = canon.of(repo)
+  SIMS = cn.ctext(SIMS)
   for col, forms in want.items():
+    forms = [cn.ctext(x) for x in forms]
     if col not in cols:
       rep.violation('R1/variable-cost-table', f.qualname, 'column %s missing' % col, 'the variable-cost report has no %s column' % col, f.loc())
       continue
     for n in cols[col]:
-      t = norm(rd.expand(n, n.ast.value, depth=12, keep=keep)[0])
+      t = cn.text(rd.expand(n, n.ast.value, depth=12, keep=keep)[0])
       n_ok += 1
       rep.check(t in forms, 'R1/variable-cost-table', 'variable-cost %s = %s' % (col, t[:60]), f.qualname, '%s = %s' % (col, t[:140]),
                 'in the variable-cost report %s is `%s`; expected %s (ratio of the paired response and cost simulations / quantities of the two posteriors)'
@@ -134,7 +137,7 @@ def r1b_variable_cost(repo, rep, f, ctx):
   if 'precision' in cols:
     for n in cols['precision']:
       t = norm(n.ast.value)
-      rep.check(re.fullmatch(r"%s\['estimate'\] - \w+" % rname, t) is not None and norm(rd.expand(n, n.ast.value, depth=12, keep=keep)[0]).endswith('np.percentile(%s, 100 * tail_probability)' % SIMS),
+      rep.check(re.fullmatch(r"%s\['estimate'\] - \w+" % rname, t) is not None and cn.text(rd.expand(n, n.ast.value, depth=12, keep=keep)[0]).endswith('np.percentile(%s, 100 * tail_probability)' % SIMS),
                 'R1/variable-cost-table', 'variable-cost precision = estimate - lower', f.qualname, 'precision = %s' % t[:80], 'precision is `%s`, not estimate - lower' % t[:80], f.loc(n.ast))
   rep.floor('variable-cost report columns checked', n_ok, 9)
 
@@ -164,6 +167,29 @@ def r2_determinism(repo, rep, f, ctx):
       if i.rule.startswith('R2/must-reset') or i.rule.startswith('R3/cached'):
         i.rule = 'R2/' + ('cache-invalidation' if 'must-reset' in i.rule else 'cached-method-pure')
         rep.instances.append(i)
+
+
+def float_order_shape(fo):
+  """Every return of float_order is floor(log10(|x|)) under |x| > 0 or -inf under its negation."""
+  c = FuncCtx.of(fo)
+  x = fo.params[0]
+  seen = set()
+  for r in [n for n in c.g.nodes if n.kind == 'return']:
+    if r.ast.value is None:
+      return False
+    t = norm(c.rd.expand(r, r.ast.value, keep=(x,))[0]).replace('np.absolute(', 'np.abs(').replace('np.fabs(', 'np.abs(')
+    conds = set()
+    for e, taken, tn in cfgmod.dominating_conditions(c.g, r):
+      conds |= {z.replace('np.absolute(', 'np.abs(').replace('np.fabs(', 'np.abs(') for z in pathcond.asserted_forms(c.rd.expand(tn, e, keep=(x,))[0], taken)}
+    pos = {'np.abs(%s) > 0' % x, 'abs(%s) > 0' % x, '%s != 0' % x}
+    nonpos = {'np.abs(%s) <= 0' % x, 'abs(%s) <= 0' % x, 'np.abs(%s) == 0' % x, '%s == 0' % x}
+    if t in ('np.floor(np.log10(np.abs(%s)))' % x, 'np.floor(np.log10(abs(%s)))' % x, 'math.floor(math.log10(abs(%s)))' % x) and conds & pos:
+      seen.add('log')
+    elif t in ('-np.inf', "-float('inf')", '-math.inf') and conds & nonpos:
+      seen.add('inf')
+    else:
+      return False
+  return seen == {'log', 'inf'}
 
 
 def r3_scenario(repo, rep):
@@ -197,8 +223,8 @@ def r3_scenario(repo, rep):
             'the scenario predicate is `%s`: it does not test exactly the pre-period costs of all groups plus the test-period costs of the control group' % t[:180], f.loc())
   fo = repo.func('utils.float_order')
   rep.fn(fo)
-  txt = norm(fo.node)
-  rep.check('np.floor(np.log10(abs_x))' in txt and 'np.abs(x)' in txt and '-np.inf' in txt, 'R3/scenario', 'float_order = floor(log10|x|), -inf at 0', fo.qualname,
+  ok_fo = float_order_shape(fo)
+  rep.check(ok_fo, 'R3/scenario', 'float_order = floor(log10|x|), -inf at 0', fo.qualname,
             'float_order body', 'float_order no longer computes floor(log10(|x|)) with -inf for 0', fo.loc(), nontrivial=False)
 
 
